@@ -64,7 +64,7 @@ PROPERTIES = {
         "assumptions": A_COMMON + ["A7 slot-free precondition of the primitives is a caller obligation (known to be violated by one input, DESIGN 2.3)"],
     },
     "C07": {
-        "units": ["ranges"], "kani": ["ranges"], "kani_cex": [],
+        "units": ["ranges", "arena_forest"], "kani": ["ranges"], "kani_cex": [],
         "explanation": "PARTIAL (section splitter): for all position vectors of any length, the ranges handed to process_section "
                        "partition [first split position, end) in order, each starting at a split position. Which positions are chosen "
                        "(process_blocks), heading-level arithmetic in the Projector and list padding are not covered.",
